@@ -285,3 +285,25 @@ Proof.
   split; [vm_compute; reflexivity|]. split; vm_compute; reflexivity.
 Qed.
 Print Assumptions C15_nonvacuous_user_default.
+
+(* round 5: a tuple is never a key - deleting one (empty tuple, 1-tuple, a stored key tuple) is refused and is the
+   identity step of both dict kinds, in the model of the implementation and in the specification *)
+Theorem C15_tuple_delete_refused : forall d s a st kt,
+  mstep d (ODelT kt) = (d, true) /\ sstep s (ODelT kt) = (s, true) /\ astep st a (ODelT kt) = (a, true).
+Proof. intros. repeat split. Qed.
+Print Assumptions C15_tuple_delete_refused.
+
+Example C15_nonvacuous_tuple_keys :
+  let ops := [OSet [1; 2] 7; ODelT [1; 2]; ODelT [1]; ODelT []; OObs (QTup [1; 2]); OObs (QTup [1]); OObs (QTup []);
+              OObs QNo; ODel 1; OObs (QTup [1; 2]); OObs (QTup [2])] in
+  Forall op_ok ops /\
+  map v_raised (mrun [1; 2] [7] empty ops) = [false; true; true; true; false; true; true; true; false; true; false] /\
+  map v_raised (arun false [1; 2] [7] ainit ops) = map v_raised (mrun [1; 2] [7] empty ops) /\
+  map v_get (mrun [1; 2] [7] empty ops) =
+    [[Some 7; Some 7]; [Some 7; Some 7]; [Some 7; Some 7]; [Some 7; Some 7]; [Some 7; Some 7]; [Some 7; Some 7];
+     [Some 7; Some 7]; [Some 7; Some 7]; [None; Some 7]; [None; Some 7]; [None; Some 7]].
+Proof.
+  cbv zeta. split; [repeat constructor; discriminate|].
+  split; [vm_compute; reflexivity|]. split; vm_compute; reflexivity.
+Qed.
+Print Assumptions C15_nonvacuous_tuple_keys.
